@@ -74,6 +74,36 @@ theorem contract_bridge (hc : CAR n ad a) (φ : R →ₗ[GQ] GQ) (N : Rat) (hN1 
   rw [gsumRange_eq_sum, ← map_sum, contraction_sum hc p q hq, map_sub, hN]
   refine GQ.ext ?_ ?_ <;> simp [GQ.smul] <;> field_simp <;> ring
 
+/-- rotate three nested sums: `Σ_q Σ_r Σ_s F q r s = Σ_Q Σ_R Σ_S F R S Q` -/
+theorem sum_rotate3 {M : Type} [AddCommMonoid M] (n : Nat) (F : Nat → Nat → Nat → M) :
+    ∑ q ∈ range n, ∑ r ∈ range n, ∑ s ∈ range n, F q r s = ∑ Q ∈ range n, ∑ Rr ∈ range n, ∑ S ∈ range n, F Rr S Q := by
+  calc ∑ q ∈ range n, ∑ r ∈ range n, ∑ s ∈ range n, F q r s
+      = ∑ q ∈ range n, ∑ s ∈ range n, ∑ r ∈ range n, F q r s := by
+        apply sum_congr rfl; intro q _; rw [sum_comm]
+    _ = ∑ s ∈ range n, ∑ q ∈ range n, ∑ r ∈ range n, F q r s := by rw [sum_comm]
+
+/-- **`get_chemist_two_body_coefficients` (Model entries, `spin_basis=False`) is the chemist reordering**: for every
+coefficient tensor `h` over the rationals and every `ℚ`-algebra with the CAR,
+`Σ h_pqrs a†_p a†_q a_r a_s = Σ g_PQRS a†_P a_Q a†_R a_S + Σ_PS c_PS a†_P a_S` with `g = chemEntry h false` (the transposed
+tensor) and `c_PS = −Σ_q g[P,q,q,S]` (the spatial form of `corrEntry`). -/
+theorem chemEntry_bridge {R' : Type} [Ring R'] [Algebra ℚ R'] {ad a : Nat → R'} (hc : CAR n ad a)
+    (h : Nat → Nat → Nat → Nat → ℚ) :
+    ∑ p ∈ range n, ∑ q ∈ range n, ∑ r ∈ range n, ∑ s ∈ range n, h p q r s • (ad p * ad q * a r * a s) =
+      (∑ P ∈ range n, ∑ Q ∈ range n, ∑ Rr ∈ range n, ∑ S ∈ range n,
+          chemEntry h false P Q Rr S • (ad P * a Q * ad Rr * a S))
+      + ∑ P ∈ range n, ∑ S ∈ range n, (-(∑ q ∈ range n, chemEntry h false P q q S)) • (ad P * a S) := by
+  rw [chemist_reorder_sum hc h, sub_eq_add_neg]
+  congr 1
+  · apply sum_congr rfl
+    intro p _
+    exact sum_rotate3 n (fun q r s => h p q r s • (ad p * a s * ad q * a r))
+  · rw [← sum_neg_distrib]
+    apply sum_congr rfl; intro p _
+    rw [← sum_neg_distrib]
+    apply sum_congr rfl; intro r _
+    rw [neg_smul]
+    rfl
+
 end C17
 end Model
 end OFV
